@@ -103,7 +103,7 @@ def future_violations(f: FutureT) -> Violations:
 OrchSelfT = Rec("Orchestrator", cls=O + "Orchestrator")
 
 
-@contract(O + "Orchestrator._extract_violations_from_future", props=["C07"],
+@contract(O + "Orchestrator._extract_violations_from_future", no_selftest=True, props=["C07"],
           types=dict(self=OrchSelfT, future=FutureT), returns=Violations)
 class ExtractViolationsFromFuture:
     def reveals(future):
@@ -120,7 +120,7 @@ def collect(fs: SeqOf(FutureT)) -> Violations:
     return future_violations(fs[0]) + collect(fs[1:])
 
 
-@contract(O + "Orchestrator._collect_parallel_results", props=["C07"],
+@contract(O + "Orchestrator._collect_parallel_results", no_selftest=True, props=["C07"],
           types=dict(self=OrchSelfT, futures=SeqOf(FutureT), future=FutureT, violations=Violations), returns=Violations)
 class CollectParallelResults:
     def ensures_concatenation_in_completion_order(futures, result):
@@ -230,7 +230,7 @@ class ExecuteParallelLinting:
         return pool_out(file_paths, self.project_root, self.config, max_workers)
 
 
-@contract(O + "Orchestrator._finalize_rules", props=["C07"], types=dict(self=OrchT, violations=Viols, rule=RuleT),
+@contract(O + "Orchestrator._finalize_rules", no_selftest=True, props=["C07"], types=dict(self=OrchT, violations=Viols, rule=RuleT),
           returns=Viols, modifies=["self.registry.gs", "self._rules_discovered"])
 class FinalizeRules:
     def ensures_finalizes_the_rules_of_this_process(self, result, old):
@@ -257,7 +257,7 @@ def goes_parallel(file_paths, max_workers):
     return len(file_paths) > 0 and len(file_paths) >= 2 * workers_of(max_workers)
 
 
-@contract(O + "Orchestrator.lint_files_parallel", props=["C07"],
+@contract(O + "Orchestrator.lint_files_parallel", no_selftest=True, props=["C07"],
           types=dict(self=OrchT, file_paths=SeqOf(PathT), max_workers=Opt(Int), violations=Viols),
           returns=Viols, raises=["ValueError", "OSError"],
           modifies=["self.registry.gs", "self._rules_discovered", "self.ignore_parser._ignore_cache"])
@@ -288,7 +288,7 @@ class LintFilesParallel:
                        + fin_all(rules_of(ready(old.self.registry.gs, old.self._rules_discovered))))
 
 
-@contract(O + "Orchestrator.lint_directory_parallel", props=["C07"],
+@contract(O + "Orchestrator.lint_directory_parallel", no_selftest=True, props=["C07"],
           types=dict(self=OrchT, dir_path=PathT, recursive=Bool, max_workers=Opt(Int)),
           returns=Viols, raises=["ValueError", "OSError"],
           modifies=["self.registry.gs", "self._rules_discovered", "self.ignore_parser._ignore_cache"])
@@ -346,7 +346,7 @@ def fresh_lint(file_path, root, config):
                   parser_for(root).project_root, parser_for(root).repo_patterns)
 
 
-@contract(O + "_lint_file_worker", props=["C07"],
+@contract(O + "_lint_file_worker", no_selftest=True, props=["C07"],
           types=dict(args=TupleOf(PathT, PathT, Dict), orchestrator=OrchT, violations=Violations), returns=SeqOf(ViolDictT))
 class LintFileWorker:
     def ensures_per_file_result_of_a_fresh_orchestrator(args, result, caught):
